@@ -65,6 +65,34 @@ func benignMappingMessages(p *an.Prog) []string {
 	return out
 }
 
+// allMappingMessages: every constant error message the mapping reader's closure can produce.
+func allMappingMessages(p *an.Prog) []string {
+	root := p.Func("data.ReadMapping")
+	if root == nil {
+		return nil
+	}
+	set := map[string]bool{}
+	for f := range libClosure(p, root) {
+		for _, b := range f.Blocks {
+			for _, in := range b.Instrs {
+				c, ok := in.(*ssa.Call)
+				if !ok || !an.ErrorCtor(c.Call.StaticCallee()) || len(c.Call.Args) == 0 {
+					continue
+				}
+				if k, ok := c.Call.Args[0].(*ssa.Const); ok && k.Value != nil && k.Value.Kind() == constant.String {
+					set[constant.StringVal(k.Value)] = true
+				}
+			}
+		}
+	}
+	var out []string
+	for s := range set {
+		out = append(out, s)
+	}
+	sort.Strings(out)
+	return out
+}
+
 func derivesFromLen(v ssa.Value) bool {
 	switch x := v.(type) {
 	case *ssa.Call:
@@ -80,6 +108,17 @@ func derivesFromLen(v ssa.Value) bool {
 func mappingSiteRule(p *an.Prog, r *an.Report, rule string) int {
 	benign := benignMappingMessages(p)
 	r.Analysed["benign_mapping_warning_messages"] = benign
+	isBenign := map[string]bool{}
+	for _, b := range benign {
+		isBenign[b] = true
+	}
+	var others []string
+	for _, m := range allMappingMessages(p) {
+		if !isBenign[m] {
+			others = append(others, m)
+		}
+	}
+	r.Analysed["other_mapping_error_messages"] = len(others)
 	flow := an.NewFlow(p)
 	nsites := 0
 	for _, fn := range p.RepoFns {
@@ -166,9 +205,14 @@ func mappingSiteRule(p *an.Prog, r *an.Report, rule string) int {
 			if !ok {
 				bad = append(bad, fmt.Sprintf("filter substring %q occurs in none of the reader's warning messages %q", f, benign))
 			}
+			for _, m := range others {
+				if strings.Contains(m, f) {
+					bad = append(bad, fmt.Sprintf("filter substring %q also matches the genuine error %q, which would then be ignored", f, m))
+				}
+			}
 		}
 		if len(uniq) > 0 {
-			r.Check(len(bad) == 0, rule, key+"/filter-matches-message", pos, "the substring the site's filter tests occurs in the warning message the mapping reader produces", bad...)
+			r.Check(len(bad) == 0, rule, key+"/filter-matches-message", pos, "the substring the site's filter tests occurs in the reader's trailing-data warning and in none of its other error messages", bad...)
 		}
 	}
 	return nsites
